@@ -46,6 +46,7 @@ inductive Op where
   | prodit (ws : List (List Nat))
   | tryf (t : Nested)
   | iter | index | iterWith | indexes | keys | dkeys | len
+  | resume (k : Nat)
   | bad
 deriving Repr
 
@@ -100,6 +101,8 @@ structure Kind (A : Type) where
   indexes : List (List Nat) × List (Option (List Nat))
   keys : Out (List (List Nat) × List (Option (List Nat)))
   len : Out Nat
+  resumeIdx : Nat → List (Option (List Nat)) × List (List Nat)
+  resumeKeys : Nat → Out (List (Option (List Nat)) × List (List Nat))
 
 /-! ### observation tokens -/
 
@@ -120,6 +123,28 @@ def outToks {α : Type} (f : α → List String) : Out α → List String
 
 def enumToks (r : List (List Nat) × List (Option (List Nat))) : List String :=
   r.1.map tupStr ++ ["end"] ++ r.2.map optTupStr
+
+/-- the multi-index with every coordinate at its maximum (0 on an empty axis: then nothing is enumerated anyway) -/
+def lastOf (dims : List Nat) : List Nat := dims.map (· - 1)
+
+/-- `resume:<k>` on one enumeration: `r.1` = results of the `k` leading `next()`, `r.2` = the remainder.  Every
+    consumer of the harness runs on its own freshly advanced iterator and must see the remainder:
+    `collect`, `for_each`, `fold`, `count`, `last`, `nth(0)`, `nth(1)` then `next()`, `skip(1).next()`,
+    `step_by(2)`, `min`, `max`, `position(== last tuple of the shape)`, `all(|_| true)` then `next()`.
+    `sh=<n>`: the number of remaining items, which the iterator's `size_hint()` must bracket (checked by the driver). -/
+def resumeObsToks (last : List Nat) (r : List (Option (List Nat)) × List (List Nat)) : List String :=
+  let l := r.2
+  ["adv"] ++ r.1.map optTupStr ++ ["sh=" ++ toString l.length] ++
+  ["col"] ++ l.map tupStr ++ ["fe"] ++ l.map tupStr ++ ["fo"] ++ l.map tupStr ++
+  ["cnt", toString l.length, "last", optTupStr l.getLast?, "nth0", optTupStr l[0]?,
+   "nth1", optTupStr l[1]?, optTupStr l[2]?, "skip1", optTupStr l[1]?] ++
+  ["step2"] ++ (stepBy2 l).map tupStr ++
+  ["min", optTupStr (minLex l), "max", optTupStr (maxLex l), "pos", optStr (l.findIdx? (· == last)),
+   "all", "T", "N"]
+
+def resumeToks (dims : List Nat) (ri : List (Option (List Nat)) × List (List Nat))
+    (rk : Out (List (Option (List Nat)) × List (List Nat))) : List String :=
+  ["ix"] ++ resumeObsToks (lastOf dims) ri ++ ["ky"] ++ outToks (resumeObsToks (lastOf dims)) rk
 
 /-- `dkeys`: per axis the keys of the domain (as usize), their round trip `usize -> Idx -> usize` and the value after
     conversion to the sibling domain's index type; then three further `next()` -/
@@ -170,6 +195,7 @@ def Kind.step {A : Type} (K : Kind A) (s : St A) (op : Op) : St A × List String
   | .keys => (s, outToks enumToks K.keys)
   | .dkeys => (s, if K.labelled then dkeysToks K.newtype K.dims else ["na"])
   | .len => (s, outToks (fun n => ["v", toString n]) K.len)
+  | .resume k => (s, resumeToks K.dims (K.resumeIdx k) (K.resumeKeys k))
   | .bad => (s, ["na"])
 
 def Kind.go {A : Type} (K : Kind A) : St A → List Op → List (List String)
@@ -181,6 +207,7 @@ def Kind.staticToks {A : Type} (K : Kind A) : Op → Option (List String)
   | .indexes => some (enumToks K.indexes)
   | .keys => some (outToks enumToks K.keys)
   | .dkeys => some (if K.labelled then dkeysToks K.newtype K.dims else ["na"])
+  | .resume k => some (resumeToks K.dims (K.resumeIdx k) (K.resumeKeys k))
   | _ => none
 
 /-- the observation trace of a program; both registers start as `zeros()`; if that already fails only the
@@ -205,6 +232,16 @@ def mkIterWith {A : Type} (idxs : List (List Nat)) (index : A → List Nat → O
 def mrEnum (size : List Nat) : List (List Nat) × List (Option (List Nat)) :=
   let r := drain MultiRange.next (prodDims size + 1) (MultiRange.new size)
   (r.1, (nextN MultiRange.next 3 r.2).1)
+
+/-- a labelled enumeration (`iproduct!` of the axis keys, modelled as the list of its items) resumed after `k`
+    calls of `next()` -/
+def listResume (l : List (List Nat)) (k : Nat) : List (Option (List Nat)) × List (List Nat) :=
+  resumeRun SliceIter.next k (l.length + 1) l
+
+/-- specification of a resumed enumeration of the items `l`: the `k` calls return the first `k` items (`None`
+    beyond the end), the remainder is `l.drop k` -/
+def specResume (l : List (List Nat)) (k : Nat) : List (Option (List Nat)) × List (List Nat) :=
+  ((l.take k).map some ++ List.replicate (k - l.length) none, l.drop k)
 
 def flatten2 {V : Type} (v : List (List V)) : List V := v.flatten
 def flatten3 {V : Type} (v : List (List (List V))) : List V := v.flatten.flatten
@@ -248,6 +285,8 @@ def kindU1 (k0 : Nat) : Kind (MArr1 Nat) where
   indexes := mrEnum [k0]
   keys := .na
   len := .ok k0
+  resumeIdx := MultiRange.resume [k0]
+  resumeKeys _ := .na
 
 def cells2 (a : MArr2 Nat) : Nat := (a.map List.length).sum
 def cells3 (a : MArr3 Nat) : Nat := (a.map cells2).sum
@@ -287,6 +326,8 @@ def kindU2 (k0 k1 : Nat) : Kind (MArr2 Nat) where
   indexes := mrEnum [k0, k1]
   keys := .na
   len := .ok (k0 * k1)
+  resumeIdx := MultiRange.resume [k0, k1]
+  resumeKeys _ := .na
 
 def kindU3 (k0 k1 k2 : Nat) : Kind (MArr3 Nat) where
   dims := [k0, k1, k2]
@@ -327,6 +368,8 @@ def kindU3 (k0 k1 k2 : Nat) : Kind (MArr3 Nat) where
   indexes := mrEnum [k0, k1, k2]
   keys := .na
   len := .ok (k0 * k1 * k2)
+  resumeIdx := MultiRange.resume [k0, k1, k2]
+  resumeKeys _ := .na
 
 /-! ### labelled kinds -/
 
@@ -378,6 +421,8 @@ def kindL1 (newtype : Bool) (d0 : Nat) : Kind (MArrD1 Nat) where
   indexes := (idx1 d0, [none, none, none])
   keys := .ok (idx1 d0, [none, none, none])
   len := .na
+  resumeIdx := listResume (idx1 d0)
+  resumeKeys k := .ok (listResume (idx1 d0) k)
 
 def kindL2 (newtype : Bool) (d0 d1 : Nat) : Kind (MArrD2 Nat) where
   dims := [d0, d1]
@@ -419,6 +464,8 @@ def kindL2 (newtype : Bool) (d0 d1 : Nat) : Kind (MArrD2 Nat) where
   indexes := (idx2 d0 d1, [none, none, none])
   keys := .ok (idx2 d0 d1, [none, none, none])
   len := .na
+  resumeIdx := listResume (idx2 d0 d1)
+  resumeKeys k := .ok (listResume (idx2 d0 d1) k)
 
 def L3.dump (d0 d1 d2 : Nat) : MArrD3 Nat → Dump :=
   mkDump MArrD3.iter MArrD3.itNext MArrD3.cellCount (idx3 d0 d1 d2) L3.idx
@@ -463,6 +510,8 @@ def kindL3 (newtype : Bool) (d0 d1 d2 : Nat) : Kind (MArrD3 Nat) where
   indexes := (idx3 d0 d1 d2, [none, none, none])
   keys := .ok (idx3 d0 d1 d2, [none, none, none])
   len := .na
+  resumeIdx := listResume (idx3 d0 d1 d2)
+  resumeKeys k := .ok (listResume (idx3 d0 d1 d2) k)
 
 /-! ### the flat row-major specification -/
 
@@ -566,6 +615,8 @@ def kindSpec (labelled newtype : Bool) (dims : List Nat) : Kind (List Nat) where
   indexes := (lexList dims, [none, none, none])
   keys := if labelled then .ok (lexList dims, [none, none, none]) else .na
   len := if labelled then .na else .ok (prodDims dims)
+  resumeIdx := specResume (lexList dims)
+  resumeKeys k := if labelled then .ok (specResume (lexList dims) k) else .na
 
 /-- run a program on the nested model of the kind selected by family / index type / shape -/
 def runNested (labelled newtype : Bool) (dims : List Nat) (prog : List Op) : Option (List (List String)) :=
